@@ -1410,6 +1410,23 @@ def ext_method(interp, recv, name, args, kw, st, node):
             return fresh_arr(term, dims, labels, "int")
         return fresh_arr(T("rng", recv.term, name, tuple(a.term for a in args), kwterms(kw)), None, labels)
     term = T("mcall", recv.term, name, tuple(a.term for a in args), kwterms(kw))
+    if name in ("append", "extend") and recv.kind == "unk" and recv.term.op == "getitem":
+        # container[k].append(x): the element of a symbolic container is updated in place
+        base_t, key_t = recv.term.args
+        newt = T("store", base_t, key_t, T(name, recv.term, *[a.term for a in args]))
+        hit = False
+        for env in st.frames:
+            for k_, x_ in list(env.items()):
+                if x_.term == base_t:
+                    env[k_] = x_.replace(term=newt, labels=x_.labels | labels, items=None)
+                    hit = True
+        for attrs in st.heap.values():
+            for k_, x_ in list(attrs.items()):
+                if x_.term == base_t:
+                    attrs[k_] = x_.replace(term=newt, labels=x_.labels | labels, items=None)
+                    hit = True
+        interp.event("mutate", node, st, how="." + name, target=recv, value=args[0] if args else None, targetsrc="element of container", rebound=hit)
+        return vconst(None)
     if name in MUTATING_METHODS:
         if name in ("fit", "fit_transform", "partial_fit", "fit_predict"):
             b = bind(["X", "y"], args, kw)
